@@ -51,6 +51,22 @@ CLAIMED = {
         technique='Lean 4 invariant proofs by induction on nesting depth and on the event sequence + differential correspondence on '
                   'enumerated chains, orders and random operation sequences',
         design='6/C20'),
+    'C17': dict(
+        text='Lean theorems over the launcher model (Launcher.call = ProcessLauncher.__call__, launch/continue_/create), for every '
+             'configuration, loader tables, process runtime, persister content and task body, hence at every point of every history '
+             '(C17_history_step): C17_unknown_task_rejected, C17_persist_without_persister_rejected, '
+             'C17_continue_without_persister_rejected, C17_refused_task_is_inert (a rejected or failed task changes nothing and runs '
+             'nothing), C17_create_does_not_run, C17_launch_persists_first (the initial checkpoint is saved before the run), '
+             'C17_continue_uses_requested_tag (+ depends only on that entry), C17_nowait_returns_pid, C17_reply_is_outputs_or_error, '
+             'C17_configured_loader_used, C17_history_without_persister, C17_create_then_continue (execute_process). The dispatch chain, '
+             'keyword signatures and body keys are generated from the source (C17_tables, C17_bodies_bind). The model is compared with '
+             'the real ProcessLauncher on tens of thousands of task histories (direct call and controller->LocalCommunicator path).',
+        note='Modelled, not verified: ProcessLauncher.__call__/_launch/_continue/_create (hand-written Lean mirror, differential check '
+             'per task on reply, persister keys and per-process step trace before/after the reply); persisters (C14), Process '
+             'stepping and save/load (C01-C08) are oracles of the model, exercised through the real code.',
+        technique='Lean 4 proofs of the decision logic over an executable launcher model + differential correspondence on generated '
+                  'task histories with independent Python monitors',
+        design='6/C17'),
 }
 
 PM_NOTE = ('Modelled, not verified: Process.step / step_until_terminated / pause / play / kill / resume / fail / call_soon / '
